@@ -2493,6 +2493,20 @@ func (v *TransactionVariables) All(f func(v variables.RuleVariable, col collecti
 	if !f(variables.ResBodyProcessor, v.resBodyProcessor) {
 		return
 	}
+	// The response body error variables must be visited too: reset() relies on All, and a
+	// recycled transaction would otherwise start with its predecessor's response body errors.
+	if !f(variables.ResBodyError, v.resBodyError) {
+		return
+	}
+	if !f(variables.ResBodyErrorMsg, v.resBodyErrorMsg) {
+		return
+	}
+	if !f(variables.ResBodyProcessorError, v.resBodyProcessorError) {
+		return
+	}
+	if !f(variables.ResBodyProcessorErrorMsg, v.resBodyProcessorErrorMsg) {
+		return
+	}
 	if !f(variables.Rule, v.rule) {
 		return
 	}
